@@ -277,6 +277,6 @@ impl Scheduler for PosScheduler {
         Some(r[p % r.len()].id())
     }
     fn next_u64(&mut self) -> u64 {
-        self.i as u64 * 0x9E3779B97F4A7C15
+        (self.i as u64).wrapping_mul(0x9E3779B97F4A7C15)
     }
 }
